@@ -223,6 +223,7 @@ def rule_R3(chk, repo):
                        f'{bname} branch', ok, f'slot at line {hit.lineno}' if hit else 'no tainted coefficient slot',
                        key=f'{rid}|{q}|{param}|{bname}')
                 n += 1
+    n += rule_R3b(chk, repo, rid)
     chk.floor(rid, n, 40)
 
 
@@ -238,6 +239,7 @@ def run(chk, repo, tier):
     run_id_typestate(chk, repo, 'C07.R1', fis, 103)
     rule_R2(chk, repo)
     rule_R3(chk, repo)
+    rule_R5(chk, repo)
     from .C07charges import rule_R6
     rule_R6(chk, repo)
     from . import support
@@ -250,3 +252,179 @@ def run(chk, repo, tier):
             'per path of the term functions, coefficient taint from tkin/vint into both build paths.',
             'instances = allocation sites, families x {nest, leaf}, paths of the term functions (partitioned by the '
             'branch conditions taken), coefficient slots; distinct = distinct keys')
+
+
+def rule_R3b(chk, repo, rid='C07.R3'):
+    """a term may only be skipped on a condition about the very coefficient that is inserted"""
+    from ..defuse import dominating_conditions
+    n = 0
+    for q, helper in DRIVERS.items():
+        fi = repo.func(q)
+        T = Taint(repo, fi, ['tkin', 'vint'], None)
+        for c in ast.walk(fi.node):
+            if not isinstance(c, ast.Call):
+                continue
+            nm = ts.callee_name(c)
+            slot = None
+            if nm == 'OpChain' and len(c.args) >= 3:
+                slot = c.args[2]
+            elif nm == helper and len(c.args) >= 4:
+                slot = c.args[3]
+            if slot is None or not T.expr_tainted(slot):
+                continue
+            # raw (unexpanded) dominating tests
+            conds = _dominating_tests(fi.node, c)
+            bad = []
+            for t in conds:
+                for sub in ast.walk(t):
+                    if isinstance(sub, (ast.Subscript, ast.Name)) and T.expr_tainted(sub) and \
+                            not isinstance(getattr(sub, 'ctx', None), ast.Store):
+                        # allowed: the inserted coefficient itself (or a name holding it)
+                        if norm(sub) == norm(slot):
+                            continue
+                        if isinstance(sub, ast.Name) and isinstance(slot, ast.Name):
+                            continue
+                        if isinstance(sub, ast.Name) and sub.id in ('tkin', 'vint') and isinstance(t, ast.Compare) and \
+                                'shape' in norm(t):
+                            continue
+                        # sub-expressions of an allowed expression
+                        if any(norm(sub) == norm(x) for x in ast.walk(slot)):
+                            continue
+                        bad.append((norm(t), norm(sub)))
+            ok = not bad
+            chk.ob(rid, where(repo, fi, c), f'{fi.name}: the term with coefficient `{norm(slot)[:40]}` is skipped only on conditions '
+                   f'about that coefficient or about indices', ok,
+                   '; '.join(f'condition `{t[:60]}` tests `{s_[:40]}`' for t, s_ in bad[:2]),
+                   key=f'{rid}|{q}|skip|{nm}|{norm(slot)[:60]}')
+            n += 1
+    return n
+
+
+def _dominating_tests(fnode, target):
+    out = None
+
+    def walk(stmts, conds):
+        nonlocal out
+        conds = list(conds)
+        for s in stmts:
+            if out is not None:
+                return
+            if isinstance(s, ast.If):
+                walk(s.body, conds + [s.test])
+                if out is not None:
+                    return
+                walk(s.orelse, conds + [s.test])
+                if out is not None:
+                    return
+                if s.body and isinstance(s.body[-1], (ast.Continue, ast.Return, ast.Break, ast.Raise)):
+                    conds = conds + [s.test]
+            elif isinstance(s, (ast.For, ast.While)):
+                walk(s.body, conds)
+            else:
+                if any(n is target for n in ast.walk(s)):
+                    out = conds
+                    return
+    walk(fnode.body, [])
+    return out or []
+
+
+# ---------------------------------------------------------------------------------------
+def rule_R5(chk, repo, rid='C07.R5'):
+    """gauge transform: the two halves are mirror images; creation operators transform with u, annihilation with conj(u)"""
+    chk.rule(rid, 'orbital gauge transform: the blocks that fill the left matrix (families connected to the right terminal, '
+                  'keys [..][i]) and the blocks that fill the right matrix (families connected to the left terminal, keys '
+                  '[..][i + 2]) are mirror images of each other block by block (same families, same key patterns, same matrix '
+                  'elements); pure creation families are transformed with u, pure annihilation families with conj(u)')
+    fi = repo.func('hamiltonian.molecular_hamiltonian_orbital_gauge_transform')
+    halves = {}
+    cur = None
+    for s in fi.node.body:
+        if isinstance(s, ast.Assign) and isinstance(s.targets[0], ast.Name) and isinstance(s.value, ast.Call) and \
+                norm(s.value.func) == 'np.identity':
+            cur = s.targets[0].id
+            halves[cur] = {'init': s, 'stmts': []}
+            continue
+        if cur is not None:
+            halves[cur]['stmts'].append(s)
+    if len(halves) != 2:
+        raise AnalysisError('gauge transform: the two matrices v_l / v_r not found')
+    names = list(halves)
+
+    def blocks(mat, stmts):
+        out = []
+        for top in stmts:
+            for node in ast.walk(top):
+                if not isinstance(node, ast.If):
+                    continue
+                assigns = [x for x in node.body if isinstance(x, ast.Assign)]
+                stores = [x for x in assigns if isinstance(x.targets[0], ast.Subscript) and norm(x.targets[0].value) == mat]
+                if not stores:
+                    continue
+                lookups = {}
+                fam = None
+                for x in assigns:
+                    if isinstance(x.targets[0], ast.Tuple) and isinstance(x.value, ast.Subscript) and \
+                            norm(x.value.value).endswith('.nid_map'):
+                        var = norm(x.targets[0].elts[1])
+                        root, keys = tb.subscript_chain(x.value.slice)
+                        fam = root.attr if isinstance(root, ast.Attribute) else None
+                        lookups[var] = [norm(k) for k in keys]
+                entries = []
+                for x in stores:
+                    idx = x.targets[0].slice
+                    ij = [norm(e) for e in idx.elts] if isinstance(idx, ast.Tuple) else [norm(idx)]
+                    entries.append((tuple(ij), norm(x.value)))
+                out.append({'fam': fam, 'lookups': lookups, 'entries': entries, 'node': node})
+        return out
+    bl = {m: blocks(m, halves[m]['stmts']) for m in names}
+    # which half uses the *_r families?
+    def side(b):
+        fams = {x['fam'] for x in b if x['fam']}
+        return 'r' if all(f.endswith('_r') for f in fams) else ('l' if all(f.endswith('_l') for f in fams) else '?')
+    sides = {m: side(bl[m]) for m in names}
+    if set(sides.values()) != {'r', 'l'}:
+        raise AnalysisError(f'gauge transform: halves do not separate into _r / _l families ({sides})')
+    mr = [m for m in names if sides[m] == 'r'][0]
+    ml = [m for m in names if sides[m] == 'l'][0]
+
+    def canon_block(b, mat, second_key):
+        # rename index variables j0, j1, ... by their lookup pattern; second-level key -> <pos>
+        ren = {}
+        for var, keys in b['lookups'].items():
+            k2 = list(keys[:-1]) + ['<pos>' if keys[-1] == second_key else keys[-1]]
+            ren[var] = 'J[' + ']['.join(k2) + ']'
+        ents = []
+        for ij, val in b['entries']:
+            ents.append((tuple(ren.get(v, v) for v in ij), val))
+        return (b['fam'][:-2] if b['fam'] else None, tuple(sorted(ents)))
+    ca = [canon_block(b, mr, 'i') for b in bl[mr]]
+    cb = [canon_block(b, ml, 'i + 2') for b in bl[ml]]
+    n = 0
+    sa_, sb_ = set(ca), set(cb)
+    for b, c in zip(bl[mr], ca):
+        ok = c in sb_
+        chk.ob(rid, where(repo, fi, b['node']), f'gauge transform: block of family {b["fam"]} ({len(b["entries"])} entries) has '
+               f'a mirror image in the other half', ok, '' if ok else f'no block of {c[0]}_l with the same key pattern and '
+               f'matrix elements', key=f'{rid}|mirror|{mr}|{c[0]}|{hash(c) & 0xffff if False else len(c[1])}|{n}')
+        n += 1
+    for b, c in zip(bl[ml], cb):
+        ok = c in sa_
+        chk.ob(rid, where(repo, fi, b['node']), f'gauge transform: block of family {b["fam"]} ({len(b["entries"])} entries) has '
+               f'a mirror image in the other half', ok, '' if ok else f'no block of {c[0]}_r with the same key pattern and '
+               f'matrix elements', key=f'{rid}|mirror|{ml}|{c[0]}|{len(c[1])}|{n}')
+        n += 1
+    # conjugation convention for pure families
+    for m in names:
+        for b in bl[m]:
+            base = (b['fam'] or '')[:-2]
+            ops = [w for w in base.split('_') if w in ('dag', 'ann')]
+            if not ops or len(set(ops)) != 1:
+                continue
+            want_conj = ops[0] == 'ann'
+            okc = all(('.conj()' in val) == want_conj for _, val in b['entries'])
+            chk.ob(rid, where(repo, fi, b['node']), f'gauge transform: family {b["fam"]} is transformed with '
+                   f'{"conj(u)" if want_conj else "u"}', okc, '; '.join(v for _, v in b['entries'][:2]),
+                   key=f'{rid}|conj|{m}|{b["fam"]}|{n}')
+            n += 1
+    chk.floor(rid, n, 30)
+    return n
